@@ -223,12 +223,14 @@ type txstate struct {
 	written map[string]map[string]bool // table -> primary keys this transaction wrote or deleted
 	created map[string]bool            // tables created by this transaction
 	altered map[string]bool            // tables this transaction ran DDL on
-	sps     []savepoint
-	imm     map[string]int // name -> id of the savepoint the engine's name map holds
-	spSeq   int
-	upd     int
-	first   map[string]int64
-	last    map[string]int64
+	// foreignDDL: another session committed DDL since this transaction began
+	foreignDDL bool
+	sps        []savepoint
+	imm        map[string]int // name -> id of the savepoint the engine's name map holds
+	spSeq      int
+	upd        int
+	first      map[string]int64
+	last       map[string]int64
 }
 
 func newTxstate(snapshot *world, ro bool) *txstate {
